@@ -247,6 +247,54 @@ func twoExplicitVsClose() *sched.Scenario {
 	}
 }
 
+// K12: two explicit syncs of ONE publisher (the second waits for the first:
+// syncs of a publisher take turns) || Close. A sync that was accepted finishes,
+// also when it was still waiting for its turn when Close started.
+func twoExplicitOfOnePublisherVsClose() *sched.Scenario {
+	name := "K12-two-explicit-syncs-of-one-publisher-vs-close"
+	return &sched.Scenario{Name: name,
+		Setup: func(e *sched.Exec) ([]sched.Thread, func()) {
+			w := schedfx.New(e, schedfx.Options{Pubs: 1, ChainLen: 3, Announce: true})
+			p, ch := w.Pubs[0], w.Chains[0]
+			p.Publisher.SetRoot(ch.Cids[2])
+			var ths []sched.Thread
+			for i, head := range []int{1, 2} {
+				tn := fmt.Sprintf("E%d", i)
+				ths = append(ths, sched.Thread{Name: tn, Fn: func() {
+					e.Log("%s call SyncAdChain", tn)
+					_, err := w.Sub.SyncAdChain(context.Background(), p.AddrInfo(), dagsync.WithHeadAdCid(ch.Cids[head]))
+					res := "ok"
+					if err != nil {
+						res = "err:" + err.Error()
+					}
+					e.Log("%s ret SyncAdChain %s", tn, res)
+				}})
+			}
+			ths = append(ths, closeThread(e, w, "C1"))
+			return ths, finish(e, w)
+		},
+		Check: func(e *sched.Exec) []sched.Finding {
+			out := common(e, name, []string{"E0", "E1", "C1"})
+			nok := 0
+			for _, l := range e.Obs() {
+				if i := strings.Index(l, " ret SyncAdChain "); i >= 0 {
+					res := l[i+len(" ret SyncAdChain "):]
+					if res == "ok" {
+						nok++
+					}
+					// refused at the door ("shutdown") or finished; anything else
+					// is a sync that had been let in and was not allowed to finish
+					if res != "ok" && res != "err:shutdown" {
+						out = append(out, sched.Finding{Sig: name + ":running-explicit-sync-did-not-finish", Msg: l})
+					}
+				}
+			}
+			e.Class = fmt.Sprintf("syncs-completed=%d", nok)
+			return out
+		},
+	}
+}
+
 // K8: announce-triggered syncs of two publishers under a limit of one at a time
 // || Close: one sync holds the only slot (its block request is a scheduling
 // point), the other waits for it when Close cancels. Whatever the order, Close
@@ -566,7 +614,7 @@ func postClose(call string) *sched.Scenario {
 
 func TestCheck(t *testing.T) {
 	r := vp.New("C15", "model_checking",
-		"scenarios on the real subscriber built with the instrumentation overlay (gated in-memory publisher, chain of 2-3 signed ads): K1 explicit sync (queried head) || Close, with one and with two concurrent Close callers (a sync that reports success must have reported every block); K11 the same with a segmented sync (segment size 1); K7 explicit syncs of two publishers || Close; K8 announce-triggered syncs of two publishers under a limit of one at a time || Close; K9 an explicit sync whose block hook makes a nested explicit sync of another publisher || Close; K2 announce-triggered sync || Close; K10 the subscriber with a libp2p host and a real gossipsub topic, an announcement published on the topic (it reaches the subscriber through the receiver's pubsub watcher goroutine) || Close (thorough: two Close callers); K6 two announcements of one publisher and Close with every block already local, the first sync held in its block hook until nothing else can move (a sync still pending when Close cancels must be abandoned); K3 listener registration and cancellation || Close; K5 each of 11 entry points called after Close has returned. All interleavings at the scheduling points (locks, atomics, channel operations, selects, spawns, requests, hook calls, observations) up to the preemption bound, so Close starts at every point of a sync. 'Blocks forever' is decided by quiescence with the caller not finished. states = distinct decision states; transitions = scheduling steps; traces = executions of the real code.",
+		"scenarios on the real subscriber built with the instrumentation overlay (gated in-memory publisher, chain of 2-3 signed ads): K1 explicit sync (queried head) || Close, with one and with two concurrent Close callers (a sync that reports success must have reported every block); K11 the same with a segmented sync (segment size 1); K7 explicit syncs of two publishers || Close; K12 two explicit syncs of one publisher (the second waits for its turn) || Close; K8 announce-triggered syncs of two publishers under a limit of one at a time || Close; K9 an explicit sync whose block hook makes a nested explicit sync of another publisher || Close; K2 announce-triggered sync || Close; K10 the subscriber with a libp2p host and a real gossipsub topic, an announcement published on the topic (it reaches the subscriber through the receiver's pubsub watcher goroutine) || Close (thorough: two Close callers); K6 two announcements of one publisher and Close with every block already local, the first sync held in its block hook until nothing else can move (a sync still pending when Close cancels must be abandoned); K3 listener registration and cancellation || Close; K5 each of 11 entry points called after Close has returned. All interleavings at the scheduling points (locks, atomics, channel operations, selects, spawns, requests, hook calls, observations) up to the preemption bound, so Close starts at every point of a sync. 'Blocks forever' is decided by quiescence with the caller not finished. states = distinct decision states; transitions = scheduling steps; traces = executions of the real code.",
 		"cooperative scheduling at synchronization operations; priority selects in source order; one publisher",
 		"goroutine leak = a goroutine of the bubble with a go-libipni frame after Close and cleanup",
 	)
@@ -579,7 +627,7 @@ func TestCheck(t *testing.T) {
 	if vp.Thorough() {
 		bound = 3
 	}
-	scs := []*sched.Scenario{pendingAnnounceVsClose(), twoExplicitVsClose(), limitedAnnouncesVsClose(), nestedSyncVsClose(), pubsubAnnounceVsClose(1), explicitVsCloseSeg(1, 1), explicitVsClose(1), explicitVsClose(2), announceVsClose(), listenerVsClose()}
+	scs := []*sched.Scenario{pendingAnnounceVsClose(), twoExplicitVsClose(), limitedAnnouncesVsClose(), nestedSyncVsClose(), pubsubAnnounceVsClose(1), explicitVsCloseSeg(1, 1), twoExplicitOfOnePublisherVsClose(), explicitVsClose(1), explicitVsClose(2), announceVsClose(), listenerVsClose()}
 	if vp.Thorough() {
 		scs = append(scs, pubsubAnnounceVsClose(2))
 	}
@@ -593,7 +641,7 @@ func TestCheck(t *testing.T) {
 	}
 	start := time.Now()
 	weight := func(i int) float64 { // the K5 scenarios are nearly sequential and cheap
-		if i < 6 {
+		if i < 7 {
 			return 5
 		}
 		return 1
